@@ -65,6 +65,7 @@ def load_prog(tags='verif,purego', overlay=None):
         print(p.stdout)
         raise SystemExit("ENGINE-ERROR: ssajson failed (does /repo build?)")
     prog = X.Prog(out)
+    prog.module = MOD
     prog.dump_time = time.time() - t0
     _prog_cache[key] = prog
     return prog
@@ -179,8 +180,31 @@ def _run_task(arg):
                 'path_solver_time': sub.path_solver_time, 'funcs': sorted(sub.funcs), 'instrs': sub.instrs,
                 'bounds': sub.bounds, 'outside': sub.outside, 'stubs': sub.stubs, 'assumptions': sub.assumptions,
                 'notes': sub.notes, 'samples': sub.samples, 'log': getattr(sub, 'logbuf', [])}
-    except Exception:
-        return {'name': name, 'error': traceback.format_exc()}
+    except X.AbstractionBreach as e:
+        # the code reaches below the abstraction this task interprets it in (e.g. reads point coordinates inside a ladder that is
+        # run in the abstract group): the task's layer has no image of this tree.  Not a verdict and not a failure of the
+        # machinery by itself: Check.breach_fallback decides whether another layer of the same check covers the function.
+        return {'name': name, 'error': traceback.format_exc(), 'breach': str(e)}
+    except Exception as e:
+        return {'name': name, 'error': traceback.format_exc(), 'exc': '%s: %s' % (type(e).__name__, str(e)[:200])}
+
+
+class SkippedPaths(list):
+    """result of explore() for a harness whose subject function does not exist in the current tree"""
+    skipped = True
+
+
+def run_main(main):
+    """entry point wrapper: an uncaught exception of the machinery is an ENGINE-ERROR (exit 3, no verdict), never a violation"""
+    import traceback
+    try:
+        main()
+    except SystemExit:
+        raise
+    except BaseException:
+        traceback.print_exc()
+        print('ENGINE-ERROR: the check driver failed; no verdict')
+        sys.exit(3)
 
 
 # --------------------------------------------------------------------- check driver
@@ -209,6 +233,7 @@ class Check:
         self.path_queries = 0
         self.path_solver_time = 0.0
         self.extra = {}
+        self.skip_prefixes = []
         self.jobs = int(os.environ.get('VERIF_JOBS', '16'))
         rdir = os.path.join(VERIF, 'evidence', 'replay')
         if os.path.isdir(rdir) and not getattr(self, 'quiet', False) and _PARENT is None:
@@ -231,7 +256,12 @@ class Check:
         else:
             print(ln, flush=True)
 
+    def _skipped(self, name):
+        return any(name == p or name.startswith(p + '/') or name.startswith(p + '#') for p in self.skip_prefixes)
+
     def add(self, name, pc, goal, **kw):
+        if self.skip_prefixes and self._skipped(name):
+            return None
         o = smt.Obligation(name, pc, goal, **kw)
         self.obls.append(o)
         return o
@@ -242,7 +272,19 @@ class Check:
         (unless allow_panic(panic) says it is expected)."""
         ex = X.Explorer(max_paths=max_paths)
         t0 = time.time()
-        paths = ex.run(harness)
+        try:
+            paths = ex.run(harness)
+        except X.MissingFunction as e:
+            # the harness drives a function the current tree does not have (internal helper renamed / inlined / removed): nothing to
+            # decide here; the obligations this harness would have produced (and its witnesses, named <label>/...) are dropped and
+            # the skip is reported.  The behaviour of whatever replaced the helper is the business of the harnesses of its callers.
+            self.skip_prefixes.append(name)
+            msg = 'harness %s skipped: function %s is not in the current tree' % (name, e)
+            self.log('NOTE: ' + msg)
+            if msg not in self.notes:
+                self.notes.append(msg)
+            self.obls = [o for o in self.obls if not self._skipped(o.name)]
+            return SkippedPaths()
         self.paths += len(paths)
         self.path_queries += ex.psolver.queries
         self.path_solver_time += ex.psolver.time
@@ -296,6 +338,17 @@ class Check:
             pool.terminate()
 
     def _merge(self, res):
+        if res.get('error') and res['name'] in getattr(self, 'breach_fallback', {}):
+            # a task with a registered fall-back layer: when its (abstract) interpretation cannot run the current tree at all --
+            # the code left the abstraction, or uses something the abstract contracts do not model -- the functions it covers are
+            # decided by the fall-back layer alone (weaker, stated bound) instead of ending without a verdict
+            fb = self.breach_fallback[res['name']]
+            res['breach'] = res.get('breach') or res.get('exc') or 'task failed'
+            self.log('layer not applicable: task %s left its abstraction (%s); claim for it rests on: %s' % (res['name'], res['breach'][:160], fb))
+            self.extra.setdefault('layers_not_applicable', []).append({'task': res['name'], 'reason': res['breach'][:300], 'covered_by': fb})
+            self.outside.append('task %s: its abstract interpretation has no image of the current tree (%s); the functions it covers are decided only within the bounds of: %s'
+                                % (res['name'], res['breach'][:160], fb))
+            return
         if res.get('error'):
             self.log('ENGINE-ERROR in task %s:\n%s' % (res['name'], res['error']))
             self.engine_errors = getattr(self, 'engine_errors', 0) + 1
